@@ -32,6 +32,11 @@ RULE = (
 ASSUMPTIONS = ["exhaustive enumeration bounds n <= 7; n = 8..10 (thorough: ..12) are judged by an independent subset dynamic programme, itself cross-checked against the enumeration on every case with n <= 6"]
 
 OBJ = ["flops", "size", "write", "max", "combo", "combo-7", "limit", "limit-3"]
+# step budget for the cases that are run under the deterministic step counter
+# (the largest count seen on the repaired tree is reported as max_fuel)
+FUEL_LIMIT = 50_000_000
+# (a case that exhausts the budget costs half a minute: not shrunk)
+NO_SHRINK = "did not return within"
 
 
 @st.composite
@@ -110,7 +115,9 @@ def cases(draw, max_n):
         "net": net,
         "minimize": draw(st.sampled_from(OBJ)),
         "search_outer": draw(st.booleans()),
-        "cap": draw(st.sampled_from(["2", "small", "opt", "huge"])),
+        "cap": draw(st.sampled_from(["2", "small", "opt", "huge", "zero"])),
+        # the type that carries the cap (a fixed width integer must not wrap)
+        "cap_type": draw(st.sampled_from(["int", "int", "int", "numpy32", "float"])),
         "via": draw(st.sampled_from(["function", "class_call", "class_ssa"])),
         # sizes as python ints or numpy integers; 'shift' makes the counts
         # astronomically large (beyond 64 bits) - the optimum must still be found
@@ -287,19 +294,46 @@ def run_case(spec, sub=None):
         raise HarnessError("no outer-product-free tree for a connected network")
     want = best_all if spec["search_outer"] else best_no
 
-    cap = {"2": 2, "small": 10, "opt": want, "huge": 10**30}[spec["cap"]]
+    cap = {"2": 2, "small": 10, "opt": want, "huge": 10**30, "zero": 0}[spec["cap"]]
+    if spec.get("cap_type") == "numpy32" and cap < 2**31:
+        import numpy as _np
+
+        cap = _np.int32(cap)
+    elif spec.get("cap_type") == "float":
+        cap = float(cap)
     kw = dict(minimize=minimize, cost_cap=cap, search_outer=spec["search_outer"])
     if spec["via"] == "function":
-        ok, path = guarded(pb.optimize_optimal, inputs, output, given, use_ssa=True, **kw)
+        call = lambda: pb.optimize_optimal(inputs, output, given, use_ssa=True, **kw)  # noqa: E731
         is_ssa = True
     elif spec["via"] == "class_ssa":
-        ok, path = guarded(lambda: pb.OptimalOptimizer(**kw).ssa_path(inputs, output, given))
+        call = lambda: pb.OptimalOptimizer(**kw).ssa_path(inputs, output, given)  # noqa: E731
         is_ssa = True
     else:
-        ok, path = guarded(lambda: pb.OptimalOptimizer(**kw)(inputs, output, given))
+        call = lambda: pb.OptimalOptimizer(**kw)(inputs, output, given)  # noqa: E731
         is_ssa = False
     viol = []
-    if not ok:
+    fuel_used = 0
+    if spec["cap"] == "zero" or spec.get("cap_type") == "numpy32":
+        # caps that once kept the doubling from getting anywhere: "did not
+        # return" is judged deterministically, by counted steps (DESIGN 0.7)
+        from ..fuel import Fuel, FuelExhausted
+
+        fuel = Fuel(FUEL_LIMIT)
+        try:
+            with fuel:
+                ok, path = guarded(call)
+        except FuelExhausted:
+            ok, path = True, None
+            viol.append(
+                f"optimal({minimize}, search_outer={spec['search_outer']}, cost_cap={cap!r}) did not return within "
+                f"{FUEL_LIMIT} steps (a python int cap of the same value returns at once)"
+            )
+        fuel_used = fuel.used
+    else:
+        ok, path = guarded(call)
+    if viol:
+        pass
+    elif not ok:
         viol.append(f"optimal({minimize}, search_outer={spec['search_outer']}, cost_cap={cap}) raised {path}")
     else:
         path = [tuple(p) for p in path]
@@ -324,7 +358,7 @@ def run_case(spec, sub=None):
                 if not spec["search_outer"] and has_outer:
                     viol.append("search_outer=False returned a path with an outer product")
     nontrivial = (want != first) or (best_all != best_no)
-    cls = [f"n={n}", f"minimize={minimize.split('-')[0]}", f"search_outer={spec['search_outer']}", f"cap={spec['cap']}"]
+    cls = [f"n={n}", f"minimize={minimize.split('-')[0]}", f"search_outer={spec['search_outer']}", f"cap={spec['cap']}", f"cap_type={spec.get('cap_type', 'int')}"]
     if best_all != best_no:
         cls.append("outer_product_helps")
     if spec.get("shift"):
@@ -335,4 +369,4 @@ def run_case(spec, sub=None):
         cls.append("hyper")
     if use_dp:
         cls.append("reference=subset_dp")
-    return Outcome(viol, nontrivial, cls, {"trees_enumerated": 0 if use_dp else math.prod(range(1, 2 * n - 2, 2))})
+    return Outcome(viol, nontrivial, cls, {"trees_enumerated": 0 if use_dp else math.prod(range(1, 2 * n - 2, 2)), "max_fuel": fuel_used})
